@@ -8,6 +8,7 @@
 #include "mc.hpp"
 #include "tracked.hpp"
 #include <algorithm>
+#include <iterator>
 #include <list>
 #include <map>
 #include <memory>
@@ -78,6 +79,18 @@ namespace c02
         K_INSERT_ALIAS, // insert(pos, X[i])
         K_EMPLACE_ALIAS,
         K_AT_OUT_OF_RANGE, // observer with an exception: its own (state-preserving) operation, run once per state
+        // value-category variants of every operation that takes an element (appended: earlier indices keep their meaning)
+        K_PUSH_BACK_RVALUE,         // push_back(T(v))
+        K_PUSH_BACK_MOVED,          // T t(v); push_back(std::move(t))
+        K_EMPLACE_BACK_RVALUE_ELEM, // emplace_back(T(v))
+        K_EMPLACE_BACK_LVALUE_ELEM, // T t(v); emplace_back(t)
+        K_INSERT_RVALUE,            // insert(pos, T(v))
+        K_INSERT_MOVED,             // insert(pos, std::move(t))
+        K_INSERT_INDEX_RVALUE,      // insert(int, T(v))
+        K_EMPLACE_RVALUE_ELEM,      // emplace(pos, T(v))
+        K_EMPLACE_LVALUE_ELEM,      // emplace(pos, t)
+        K_INSERT_SORTED_RVALUE,     // insert_sorted(T(v))
+        K_CTOR_RANGE_MOVE_ITER,     // vector(std::make_move_iterator(first), std::make_move_iterator(last))
         K_NKINDS
     };
     inline const char *kname(int k)
@@ -87,7 +100,10 @@ namespace c02
                                   "reserve", "clear", "invalidate", "destroy_and_default_ctor", "copy_ctor", "move_ctor",
                                   "copy_assign", "self_assign", "move_assign", "ctor_initlist_const", "ctor_initlist_rvalue",
                                   "ctor_range_template", "ctor_range_list_iterator", "ctor_range_pointer", "ctor_count",
-                                  "push_back_own_element", "emplace_back_own_element", "insert_own_element", "emplace_own_element", "at_out_of_range"};
+                                  "push_back_own_element", "emplace_back_own_element", "insert_own_element", "emplace_own_element", "at_out_of_range",
+                                  "push_back_rvalue", "push_back_moved", "emplace_back_rvalue_element", "emplace_back_lvalue_element", "insert_rvalue",
+                                  "insert_moved", "insert_index_rvalue", "emplace_rvalue_element", "emplace_lvalue_element", "insert_sorted_rvalue",
+                                  "ctor_range_move_iterator"};
         return n[k];
     }
 
@@ -207,6 +223,34 @@ namespace c02
                     }
                 }
             }
+            // appended after everything else so that the indices of the operations above never change
+            for (int x = 0; x < 2; x++)
+            {
+                for (int v = 0; v < bx.NV; v++)
+                {
+                    for (int k : {K_PUSH_BACK_RVALUE, K_PUSH_BACK_MOVED, K_EMPLACE_BACK_RVALUE_ELEM, K_EMPLACE_BACK_LVALUE_ELEM})
+                        ops.push_back({k, x, v, 0, 0});
+                    if (Tr::has_sorted)
+                        ops.push_back({K_INSERT_SORTED_RVALUE, x, v, 0, 0});
+                    for (int p = 0; p <= L; p++)
+                    {
+                        for (int k : {K_INSERT_RVALUE, K_INSERT_MOVED, K_EMPLACE_RVALUE_ELEM, K_EMPLACE_LVALUE_ELEM})
+                            ops.push_back({k, x, p, v, 0});
+                        if (v == bx.NV - 1)
+                            ops.push_back({K_INSERT_INDEX_RVALUE, x, p, v, 0});
+                    }
+                }
+                if (Tr::has_list_range) // needs std iterator categories
+                    for (int i = 0; i < (int)lists.size(); i++)
+                    {
+                        bool cyc = true;
+                        for (size_t j = 1; j < lists[i].size(); j++)
+                            if (lists[i][j] != (lists[i][j - 1] + 1) % bx.NV)
+                                cyc = false;
+                        if (cyc)
+                            ops.push_back({K_CTOR_RANGE_MOVE_ITER, x, i, 0, 0});
+                    }
+            }
             slot = t;
             return slot;
         }
@@ -244,6 +288,28 @@ namespace c02
             case K_EMPLACE_BACK:
             case K_INSERT_SORTED:
                 return mc::fmt("%s.%s(%d)", X, kname(p.kind), p.a);
+            case K_PUSH_BACK_RVALUE:
+                return mc::fmt("%s.push_back(T(%d))", X, p.a);
+            case K_PUSH_BACK_MOVED:
+                return mc::fmt("T t(%d); %s.push_back(std::move(t))", p.a, X);
+            case K_EMPLACE_BACK_RVALUE_ELEM:
+                return mc::fmt("%s.emplace_back(T(%d))", X, p.a);
+            case K_EMPLACE_BACK_LVALUE_ELEM:
+                return mc::fmt("T t(%d); %s.emplace_back(t)", p.a, X);
+            case K_INSERT_SORTED_RVALUE:
+                return mc::fmt("%s.insert_sorted(T(%d))", X, p.a);
+            case K_INSERT_RVALUE:
+                return mc::fmt("%s.insert(begin+%d, T(%d))", X, p.a, p.b);
+            case K_INSERT_MOVED:
+                return mc::fmt("T t(%d); %s.insert(begin+%d, std::move(t))", p.b, X, p.a);
+            case K_INSERT_INDEX_RVALUE:
+                return mc::fmt("%s.insert((int)%d, T(%d))", X, p.a, p.b);
+            case K_EMPLACE_RVALUE_ELEM:
+                return mc::fmt("%s.emplace(begin+%d, T(%d))", X, p.a, p.b);
+            case K_EMPLACE_LVALUE_ELEM:
+                return mc::fmt("T t(%d); %s.emplace(begin+%d, t)", p.b, X, p.a);
+            case K_CTOR_RANGE_MOVE_ITER:
+                return mc::fmt("%s' = %s(%s); old %s destroyed", X, kname(p.kind), vstr(lists[p.a]).c_str(), X);
             case K_INSERT:
             case K_EMPLACE:
                 return mc::fmt("%s.%s(begin+%d, %d)", X, kname(p.kind), p.a, p.b);
@@ -364,6 +430,10 @@ namespace c02
             {
             case K_PUSH_BACK:
             case K_EMPLACE_BACK:
+            case K_PUSH_BACK_RVALUE:
+            case K_PUSH_BACK_MOVED:
+            case K_EMPLACE_BACK_RVALUE_ELEM:
+            case K_EMPLACE_BACK_LVALUE_ELEM:
                 if (n + 1 > L)
                     return leave_box();
                 ctx(kname(p.kind), grow1 ? "grow" : "fit");
@@ -374,11 +444,26 @@ namespace c02
                     T t(p.a);
                     X.push_back(t);
                 }
+                else if (p.kind == K_PUSH_BACK_RVALUE)
+                    X.push_back(T(p.a));
+                else if (p.kind == K_PUSH_BACK_MOVED)
+                {
+                    T t(p.a);
+                    X.push_back(std::move(t));
+                }
+                else if (p.kind == K_EMPLACE_BACK_RVALUE_ELEM)
+                    X.emplace_back(T(p.a));
+                else if (p.kind == K_EMPLACE_BACK_LVALUE_ELEM)
+                {
+                    T t(p.a);
+                    X.emplace_back(t);
+                }
                 else
                     X.emplace_back(p.a);
                 mx.push_back(p.a);
                 break;
             case K_INSERT_SORTED:
+            case K_INSERT_SORTED_RVALUE:
                 if constexpr (Tr::has_sorted)
                 {
                     if (n + 1 > L)
@@ -387,6 +472,9 @@ namespace c02
                         return false;
                     ctx(kname(p.kind), grow1 ? "grow" : "fit");
                     mc::nontrivial();
+                    if (p.kind == K_INSERT_SORTED_RVALUE)
+                        X.insert_sorted(T(p.a));
+                    else
                     {
                         T t(p.a);
                         X.insert_sorted(t);
@@ -398,6 +486,11 @@ namespace c02
             case K_INSERT:
             case K_INSERT_INDEX:
             case K_EMPLACE:
+            case K_INSERT_RVALUE:
+            case K_INSERT_MOVED:
+            case K_INSERT_INDEX_RVALUE:
+            case K_EMPLACE_RVALUE_ELEM:
+            case K_EMPLACE_LVALUE_ELEM:
             {
                 if (p.a > n)
                     return false;
@@ -408,12 +501,23 @@ namespace c02
                     mc::nontrivial();
                 T t(p.b);
                 typename Vec::iterator it;
+                typename Vec::const_iterator at = (typename Vec::const_iterator)(X.data() + p.a);
                 if (p.kind == K_INSERT)
-                    it = X.insert((typename Vec::const_iterator)(X.data() + p.a), t);
+                    it = X.insert(at, t);
                 else if (p.kind == K_INSERT_INDEX)
                     it = X.insert((int)p.a, t);
+                else if (p.kind == K_INSERT_RVALUE)
+                    it = X.insert(at, T(p.b));
+                else if (p.kind == K_INSERT_MOVED)
+                    it = X.insert(at, std::move(t));
+                else if (p.kind == K_INSERT_INDEX_RVALUE)
+                    it = X.insert((int)p.a, T(p.b));
+                else if (p.kind == K_EMPLACE_RVALUE_ELEM)
+                    it = X.emplace(at, T(p.b));
+                else if (p.kind == K_EMPLACE_LVALUE_ELEM)
+                    it = X.emplace(at, t);
                 else
-                    it = X.emplace((typename Vec::const_iterator)(X.data() + p.a), p.b);
+                    it = X.emplace(at, p.b);
                 if (it != X.data() + p.a)
                     mc::violation(mc::fmt("C02.%s.%s.return_value", variant.c_str(), kname(p.kind)), "returned iterator is begin()+%ld, expected begin()+%d",
                                   (long)(it - X.data()), p.a);
@@ -613,13 +717,26 @@ namespace c02
             case K_CTOR_RANGE_TMPL:
             case K_CTOR_RANGE_PTR:
             case K_CTOR_RANGE_LIST:
+            case K_CTOR_RANGE_MOVE_ITER:
             {
                 const auto &l = lists[p.a];
                 ctx(kname(p.kind), l.empty() ? "empty" : "nonempty");
                 if (l.size() >= 2)
                     mc::nontrivial();
                 Vec *nv;
-                if (p.kind == K_CTOR_RANGE_LIST)
+                if (p.kind == K_CTOR_RANGE_MOVE_ITER)
+                {
+                    if constexpr (Tr::has_list_range)
+                    {
+                        std::list<T> src; // elements handed over as rvalues
+                        for (int v : l)
+                            src.emplace_back(v);
+                        nv = new Vec(std::make_move_iterator(src.begin()), std::make_move_iterator(src.end()));
+                    }
+                    else
+                        return false;
+                }
+                else if (p.kind == K_CTOR_RANGE_LIST)
                 {
                     if constexpr (Tr::has_list_range)
                     {
